@@ -7,10 +7,13 @@ from __future__ import annotations
 import ast
 import re
 
-from ..astutil import call_attr, calls_in, unparse, walk_local
+from ..astutil import call_attr, calls_in, text_facts, unparse, walk_local
 from ..cfg import CFG
 from ..dataflow import reaching_defs, resolved_text
+from ..paths import element_calls, enum_paths
 from ..report import Finding, Report
+from ..seqterm import SeqEval
+from ..setbuild import describe as describe_set
 from ..srcindex import AnalysisError, ClassInfo, Index
 
 DAF = "xdsl/irdl/declarative_assembly_format.py"
@@ -110,49 +113,133 @@ def check_polarity(idx: Index, rep: Report) -> None:
 def check_optional_group(idx: Index, rep: Report) -> None:
     r = rep.rule("C05.R3", "OptionalGroupDirective.parse parses one branch and calls set_empty on exactly the other; printing selects the branch with the anchor's is_present", floor=2)
     f = idx.func(DAF, "OptionalGroupDirective.parse")
-    ifs = [n for n in f.node.body if isinstance(n, ast.If)]
-    if len(ifs) != 1:
-        raise AnalysisError(f"{f.fq}: branch on the first element not found")
-    n = ifs[0]
+    cfg = CFG(f.node)
+    se = SeqEval(f.node, cfg)
+    FIRST = "self.then_first.parse_optional(parser, state)"
 
-    def shape(body, parsed: str, emptied: str) -> bool:
-        t = [re.sub(r"\s+", " ", unparse(s)) for s in body]
-        return t == [f"for element in self.{parsed}: element.parse(parser, state)", f"for element in self.{emptied}: element.set_empty(state)"] or t == [f"for element in self.{emptied}: element.set_empty(state)", f"for element in self.{parsed}: element.parse(parser, state)"]
+    def res(e: ast.AST, near: ast.AST | None = None) -> str:
+        if isinstance(e, ast.NamedExpr):
+            e = e.value
+        try:
+            return resolved_text(cfg, e, cfg.node_of(near if near is not None else e))
+        except Exception:
+            return unparse(e)
 
-    if "self.then_first.parse_optional(parser, state)" in unparse(n.test) and shape(n.body, "then_elements", "else_elements") and shape(n.orelse, "else_elements", "then_elements"):
-        r.ok(f.fq, f"{f.loc} then-branch parsed / else-branch emptied, and vice versa")
+    def strip(t: str) -> str:
+        m = re.fullmatch(r"\(?\w+ := (.*?)\)?", t)
+        return m.group(1) if m else t
+
+    paths = [p for p in enum_paths(f.node) if p.end in ("return", "fall")]
+    if not paths:
+        raise AnalysisError(f"{f.fq}: no returning path")
+    bad_d, bad_r = [], []
+    for p in paths:
+        pols = {pol for t, pol in p.facts if strip(res(t)) == FIRST}
+        if len(pols) != 1:
+            bad_d.append("a returning path does not depend on the result of parsing the first element")
+            continue
+        pol = pols.pop()
+        calls = element_calls(p, se)
+        want = {("all", "self.then_elements", "parse" if pol else "set_empty"), ("all", "self.else_elements", "set_empty" if pol else "parse")}
+        got = None if calls is None else [c for c in calls if c[2] in ("parse", "set_empty", "parse_optional") and c[1] != "self.then_first"]
+        if got is None or set(got) != want or len(got) != len(want):
+            bad_d.append(f"when the first element is {'present' if pol else 'absent'} the group performs {got}; expected {sorted(want)}")
+        rv = strip(res(p.value, p.effects[-1] if p.effects and isinstance(p.effects[-1], ast.AST) else None)) if p.value is not None else "None"
+        if not (rv == FIRST or rv == str(pol)):
+            bad_r.append(f"a path on which the first element is {'present' if pol else 'absent'} returns `{rv}`")
+    if bad_d:
+        r.fail(f.fq, Finding("C05.R3", f.fq, "set-empty-discipline", "the optional group must parse the elements of the taken branch and call set_empty on every element of the other branch (and only those): " + "; ".join(bad_d), f.loc))
     else:
-        r.fail(f.fq, Finding("C05.R3", f.fq, "set-empty-discipline", "the optional group must parse the elements of the taken branch and call set_empty on every element of the other branch (and only those)", f.loc))
-    rets = [x for x in walk_local(f.node) if isinstance(x, ast.Return)]
-    if len(rets) == 1 and unparse(rets[0].value) == "ret" and "(ret := self.then_first.parse_optional(parser, state))" in unparse(n.test):
+        r.ok(f.fq, f"{f.loc} {len(paths)} paths: then-branch parsed / else-branch emptied, and vice versa")
+    if bad_r:
+        r.fail(f.fq + ":result", Finding("C05.R3", f.fq, "group-result", "the group's result must be the result of parsing its first element: " + "; ".join(bad_r), f.loc))
+    else:
         r.ok(f.fq + ":result", None)
-    else:
-        r.fail(f.fq + ":result", Finding("C05.R3", f.fq, "group-result", "the group's result must be the result of parsing its first element", f.loc))
     g = idx.func(DAF, "OptionalGroupDirective.print")
-    if "if self.anchor.is_present(op):" in unparse(g.node) and "*self.then_whitespace, self.then_first, *self.then_elements" in unparse(g.node) and "for element in self.else_elements:" in unparse(g.node):
-        r.ok(g.fq, f"{g.loc} anchor.is_present selects then / else elements")
+    gcfg = CFG(g.node)
+    gse = SeqEval(g.node, gcfg)
+    bad_p = []
+    gpaths = [p for p in enum_paths(g.node) if p.end in ("return", "fall")]
+    for p in gpaths:
+        pols = {pol for t, pol in p.fact_texts() if t == "self.anchor.is_present(op)"}
+        if len(pols) != 1:
+            bad_p.append("a printing path does not depend on anchor.is_present(op)")
+            continue
+        pol = pols.pop()
+        calls = element_calls(p, gse)
+        got = None if calls is None else [c for c in calls if c[2] == "print"]
+        want = [("all", "self.then_whitespace", "print"), ("elem", "self.then_first", "print"), ("all", "self.then_elements", "print")] if pol else [("all", "self.else_elements", "print")]
+        if got != want:
+            bad_p.append(f"with the anchor {'present' if pol else 'absent'} the group prints {got}; expected {want}")
+    if bad_p or not gpaths:
+        r.fail(g.fq, Finding("C05.R3", g.fq, "group-print", "printing must select the then-elements iff the anchor is present, else the else-elements: " + "; ".join(bad_p), g.loc))
     else:
-        r.fail(g.fq, Finding("C05.R3", g.fq, "group-print", "printing must select the then-elements iff the anchor is present, else the else-elements", g.loc))
+        r.ok(g.fq, f"{g.loc} anchor.is_present selects then / else elements")
+    h = idx.func(DAF, "OptionalGroupDirective.set_empty")
+    hse = SeqEval(h.node, CFG(h.node))
+    allc = [element_calls(p, hse) for p in enum_paths(h.node)]
+    want_e = {("elem", "self.then_first", "set_empty"), ("all", "self.then_elements", "set_empty"), ("all", "self.else_elements", "set_empty")}
+    if all(c is not None and set(c) == want_e for c in allc):
+        r.ok(h.fq, f"{h.loc} every element of both branches is emptied")
+    else:
+        r.fail(h.fq, Finding("C05.R3", h.fq, "group-set-empty", f"OptionalGroupDirective.set_empty must empty the first element and every then- and else-element; it performs {allc}", h.loc))
 
 
 def check_attr_dict(idx: Index, rep: Report) -> None:
     r = rep.rule("C05.R4", "attr-dict: the names elided on print are the reserved names (refused on parse) plus entries equal to their declared default", floor=2)
     p = idx.func(DAF, "AttrDictDirective.print")
     q = idx.func(DAF, "AttrDictDirective.parse")
-    pt, qt = unparse(p.node), unparse(q.node)
-    if "defined_reserved_keys = self.reserved_attr_names & res.keys()" in qt and "parser.raise_error" in qt:
+    qcfg = CFG(q.node)
+    errs = [c for c in calls_in(q.node) if call_attr(c) in ("raise_error", "_raise_error")] + [n for n in walk_local(q.node) if isinstance(n, ast.Raise)]
+    refused = False
+    for c in errs:
+        for t, pol in text_facts(q.node, c):
+            if "self.reserved_attr_names" not in t:
+                continue
+            disjoint = "isdisjoint" in t
+            if pol != disjoint:
+                refused = True
+    merges = [n for n in walk_local(q.node) if (isinstance(n, ast.AugAssign) and unparse(n.target) == "state.attributes") or (isinstance(n, ast.Expr) and isinstance(n.value, ast.Call) and unparse(n.value.func) == "state.attributes.update")]
+    if not merges:
+        raise AnalysisError(f"{q.fq}: the parsed dictionary is not merged into state.attributes")
+    if refused:
         r.ok(q.fq, f"{q.loc} reserved names are refused in the parsed dictionary")
     else:
-        r.fail(q.fq, Finding("C05.R4", q.fq, "reserved-not-refused", "the parser must refuse reserved attribute names inside attr-dict", q.loc))
+        r.fail(q.fq, Finding("C05.R4", q.fq, "reserved-not-refused", "the parser must refuse reserved attribute names inside attr-dict (no error is raised under a test of the parsed keys against self.reserved_attr_names)", q.loc))
     calls = [c for c in calls_in(p.node) if call_attr(c) == "print_op_attributes"]
-    kw = {k.arg: k.value for k in calls[0].keywords} if calls else {}
+    if len(calls) != 1:
+        raise AnalysisError(f"{p.fq}: expected one print_op_attributes call")
+    kw = {k.arg: k.value for k in calls[0].keywords}
     cfg = CFG(p.node)
-    elided = resolved_text(cfg, kw["reserved_attr_names"], cfg.node_of(calls[0])) if "reserved_attr_names" in kw else ""
-    el = re.sub(r"\s+", " ", elided)
-    if "self.reserved_attr_names" in el and "d.default_value is not None and dictionary.get(name) == d.default_value" in el:
-        r.ok(p.fq, f"{p.loc} elided = reserved ∪ {{entries equal to their default}}")
+    el_expr = kw.get("reserved_attr_names") or (calls[0].args[1] if len(calls[0].args) > 1 else None)
+    dict_expr = calls[0].args[0] if calls[0].args else kw.get("attributes")
+    if el_expr is None or dict_expr is None:
+        raise AnalysisError(f"{p.fq}: print_op_attributes is called without the dictionary / the elided names")
+    desc = describe_set(p.node, cfg, el_expr, cfg.node_of(calls[0]))
+    dname = re.escape(unparse(dict_expr))
+    bad = []
+    if desc.unknown:
+        raise AnalysisError(f"{p.fq}: construction of the elided-names set not understood: {desc.unknown}")
+    if desc.bases != {"self.reserved_attr_names"}:
+        bad.append(f"its base collections are {sorted(desc.bases)} (expected exactly self.reserved_attr_names)")
+    if not desc.adds:
+        bad.append("no entry equal to its declared default is elided")
+    for ad in desc.adds:
+        if len(ad.iters) != 1 or not ad.iters[0][1].endswith(".items()"):
+            bad.append(f"`{ad.elem}` is added outside an iteration over the definitions")
+            continue
+        tg = [x.strip("() ") for x in ad.iters[0][0].split(",")]
+        if len(tg) != 2 or ad.elem != tg[0]:
+            bad.append(f"the added element `{ad.elem}` is not the name of the iterated definition")
+            continue
+        n_, d_ = re.escape(tg[0]), re.escape(tg[1])
+        eq = [t for t, pol in ad.facts if pol and (re.fullmatch(rf"{dname}\.get\({n_}\) == {d_}\.default_value|{d_}\.default_value == {dname}\.get\({n_}\)|{dname}\[{n_}\] == {d_}\.default_value", t))]
+        if not eq:
+            bad.append(f"`{ad.elem}` is elided under {sorted(ad.facts)}: without the test that the printed dictionary holds exactly the declared default, a non-default value is dropped from the output")
+    if bad:
+        r.fail(p.fq, Finding("C05.R4", p.fq, "elision-set", "the printer must elide the reserved names plus the entries equal to their declared default: " + "; ".join(bad), p.loc))
     else:
-        r.fail(p.fq, Finding("C05.R4", p.fq, "elision-set", f"the printer elides `{el[:120]}`; it must be the reserved names plus the entries equal to their declared default", p.loc))
+        r.ok(p.fq, f"{p.loc} elided = reserved ∪ {{entries equal to their default}}")
 
 
 POSITIVE_MUT = '''
